@@ -65,6 +65,10 @@ _OOO_NAMESPACES = {
     "xsi": "http://www.w3.org/2001/XMLSchema-instance",
 }
 _NUMBER_COLUMNS_REPEATED = "{" + _OOO_NAMESPACES["table"] + "}number-columns-repeated"
+_TEXT_C = "{" + _OOO_NAMESPACES["text"] + "}c"
+_TEXT_LINE_BREAK = "{" + _OOO_NAMESPACES["text"] + "}line-break"
+_TEXT_S = "{" + _OOO_NAMESPACES["text"] + "}s"
+_TEXT_TAB = "{" + _OOO_NAMESPACES["text"] + "}tab"
 
 
 def _excel_cell_value(cell, datemode):
@@ -260,29 +264,50 @@ def ods_rows(source_ods_path, sheet=1):
     location = errors.Location(source_ods_path, has_cell=True, has_sheet=True)
     for _ in range(sheet - 1):
         location.advance_sheet()
+    def repeated_count(element, attribute_name, display_name):
+        """
+        The value of the ODS repeat count ``attribute_name`` of ``element``, by default 1.
+        """
+        repeated_text = element.attrib.get(attribute_name, "1")
+        try:
+            result = int(repeated_text)
+        except ValueError:
+            raise errors.DataFormatError(
+                "%s is %s but must be an integer" % (display_name, _compat.text_repr(repeated_text)), location
+            )
+        if result < 1:
+            raise errors.DataFormatError(
+                "%s is %s but must be at least 1" % (display_name, _compat.text_repr(repeated_text)), location
+            )
+        return result
+
+    def text_of(element):
+        """
+        The text in ``element`` including nested elements like ``text:span`` with ``text:s``,
+        ``text:tab`` and ``text:line-break`` resolved to the white space they represent.
+        """
+        result = element.text or ""
+        for child in element:
+            if child.tag == _TEXT_S:
+                result += " " * repeated_count(child, _TEXT_C, "text:c")
+            elif child.tag == _TEXT_TAB:
+                result += "\t"
+            elif child.tag == _TEXT_LINE_BREAK:
+                result += "\n"
+            else:
+                result += text_of(child)
+            result += child.tail or ""
+        return result
+
     for table_row in _findall(table_element, "table:table-row", namespaces=_OOO_NAMESPACES):
         row = []
         for table_cell in _findall(table_row, "table:table-cell", namespaces=_OOO_NAMESPACES):
-            repeated_text = table_cell.attrib.get(_NUMBER_COLUMNS_REPEATED, "1")
-            try:
-                repeated_count = int(repeated_text)
-                if repeated_count < 1:
-                    raise errors.DataFormatError(
-                        "table:number-columns-repeated is %s but must be at least 1" % _compat.text_repr(repeated_text),
-                        location,
-                    )
-            except ValueError:
-                raise errors.DataFormatError(
-                    "table:number-columns-repeated is %s but must be an integer" % _compat.text_repr(repeated_text),
-                    location,
-                )
-            text_p = table_cell.find("text:p", namespaces=_OOO_NAMESPACES)
-            if text_p is None:
-                cell_value = ""
-            else:
-                cell_value = text_p.text
-            row.extend([cell_value] * repeated_count)
-            location.advance_cell(repeated_count)
+            cell_repeated_count = repeated_count(table_cell, _NUMBER_COLUMNS_REPEATED, "table:number-columns-repeated")
+            cell_value = "\n".join(
+                text_of(text_p) for text_p in _findall(table_cell, "text:p", namespaces=_OOO_NAMESPACES)
+            )
+            row.extend([cell_value] * cell_repeated_count)
+            location.advance_cell(cell_repeated_count)
         yield row
         location.advance_line()
 
